@@ -202,7 +202,7 @@ UNITS += [
 SATELLITES = [("C02", ["blob_constants", "BlobLocation", "BlobLocations", "from_blob_location", "can_coalesce", "append", "coalesce", "PackToDo", "RepackReason", "PackInfo", "PrunePack", "CopyPackBlobs", "RestorePackInfo", "restore_packinfo_coalesce", "FileLocation", "restore_read_of_blob", "restore_needed_pack"]),
               # "restore to disk" is one of the ways of reading a snapshot back: the restore units of C14's spec (node stream, plan,
               # merge walk with the destination, write task) are verified as part of this property's check as well
-              ("C14", ["NodeStreamer", "streamer_next", "BlobLocation", "data_length", "FileLocation", "add_file_blobs", "process_existing", "merge_walk", "restore_write_blob", "sparse_decision", "SparseRestore", "matching_file_decision"]),
+              ("C14", ["NodeStreamer", "streamer_next", "BlobLocation", "data_length", "FileLocation", "add_file_blobs", "process_existing", "process_node", "merge_walk", "restore_write_blob", "sparse_decision", "SparseRestore", "matching_file_decision"]),
               # the rest of the backup -> restore pipeline: chunking (C06), packing and pack headers (C08), in-run dedup / index writing (C07), index lookups (C17)
               ("C06", "*"),
               # the rest of the backup -> restore pipeline: chunking (C06), packing and pack headers (C08), in-run dedup / index writing (C07), index lookups (C17)
